@@ -10,6 +10,10 @@ Trace == ndJsonDeserialize("trace.ndjson")
 VARIABLES l, bad
 vars == <<l, bad>>
 
+\* a score is positive; a zero or negative target is met by every score
+IsNonPositive(t) == t.m = <<>> \/ ("neg" \in DOMAIN t /\ t.neg)
+TargetMet(score, t) == IF IsNonPositive(t) THEN TRUE ELSE FloatGe(score, t)
+
 \* ---------------- v1
 ScoreEvent(e) ==
   LET len == Len(e.in.msg)
@@ -26,7 +30,8 @@ MineEvent(e) ==
      /\ e.out.ok
      /\ LET z == TrailingZeros(PowHash(e.facts.digest, e.out.nonce))
         IN /\ Score1Conforms(e.out.score, z, len)       \* Score(data ++ nonce) is 3^z / len ...
-           /\ FloatGe(e.out.score, e.in.target)         \* ... and meets the target
+           /\ TargetMet(e.out.score, e.in.target)       \* ... and meets the target
+     /\ e.out.data_intact                              \* the caller's data is only read
 
 \* white box: lane j has exactly tz[j] trailing zero trits; first lane with >= n zeros, else 64
 Check1Event(e) ==
@@ -80,7 +85,7 @@ Conforms(e) ==
     [] e.op = "pow.required" ->        \* a hash with the z zeros Mine looks for scores at least the target
          /\ e.out.panic = "" /\ e.out.z \in 0..243
          /\ Score1Conforms(e.out.s_z, e.out.z, e.in.len)
-         /\ FloatGe(e.out.s_z, e.in.target)
+         /\ TargetMet(e.out.s_z, e.in.target)
     [] e.op = "pow2.Score" -> Score2Event(e)
     [] e.op = "pow2.Mine" -> Mine2Event(e)
     [] e.op = "pow2.check" -> Check2Event(e)
